@@ -1,6 +1,7 @@
 import PilotaModel.Lemmas.AsyncBinRV
 import PilotaModel.Lemmas.AsyncCmpSkip
 import PilotaModel.Lemmas.MsgSim
+import PilotaModel.Lemmas.AsyncTotal
 import PilotaModel.Props.C01
 /-
   C12 — asynchronous decoding equals in-memory decoding for every delivery schedule.
@@ -126,34 +127,39 @@ theorem sync_ok_if_async_ok (p : AProto) (t : TType) (s : Stream) (hb : (flat s)
     | panic m => simp [hx, bindP, pulledF] at h
     | fuel => simp [hx, bindP, pulledF] at h
 
-/-
-  Full statement (DESIGN.md):  syncRead p t bs = .err _ → flat s = bs → ∃ k, asyncRead p t s = .err k.
-  Proved: the async decoder does not ACCEPT what the in-memory decoder rejects, and never reaches a
-  panic site.  Missing for the full statement: that the model's recursion budget (`3·len + 3`, the
-  same as the in-memory readers') is never the reason the async interpreter stops.  Since f7447f5 the
-  in-memory reader rejects a container count above the remaining bytes at the header while the async
-  reader only fails at end of stream, so this is no longer inherited from the in-memory reader's own
-  budget lemma; it needs "every element consumes ≥ 1 byte ⇒ fuel ≥ 3·bytes suffices" for the async
-  interpreter itself.
--/
-theorem async_err_if_sync_err_partial (p : AProto) (t : TType) (bs : Bytes) (hb : bs.length < 2 ^ 63) (k : ErrKind)
-    (h : syncRead p t bs = .err k) (s : Stream) (hs : flat s = bs) :
-    (asyncRead p t s).isOk = false ∧ (asyncRead p t s).isPanic = false := by
-  constructor
-  · cases hx : asyncRead p t s with
-    | ok q =>
-      obtain ⟨v, n⟩ := q
-      obtain ⟨rest, h1, _⟩ := sync_ok_if_async_ok p t s (by rw [hs]; exact hb) v n hx
-      rw [hs, h] at h1; cases h1
-    | err k => rfl
-    | panic m => rfl
-    | fuel => rfl
-  · rw [asyncRead_flat]
-    have lift : ∀ {α} (bs : Bytes) (x : Out (α × Bytes)), x.isPanic = false → (pulledF bs x).isPanic = false := by
-      intro α bs x hx; cases x <;> simp_all [pulledF, Out.isPanic]
-    cases p with
-    | bin e => exact lift _ _ (runF_not_panic _ _)
-    | cmp => exact lift _ _ (runF_not_panic _ _)
+/-- the async decoder's recursion budget (the same `3·len + 3` as the in-memory readers') is never the
+reason it stops: every value takes at least one byte. -/
+theorem async_total (p : AProto) (t : TType) (s : Stream) :
+    asyncRead p t s ≠ .fuel ∧ (asyncRead p t s).isPanic = false := by
+  rw [asyncRead_flat]
+  have lift : ∀ {α} (bs : Bytes) (x : Out (α × Bytes)), x ≠ .fuel → x.isPanic = false →
+      pulledF bs x ≠ .fuel ∧ (pulledF bs x).isPanic = false := by
+    intro α bs x h1 h2; cases x <;> simp_all [pulledF, Out.isPanic]
+  cases p with
+  | bin e => exact lift _ _ (ABin.readVal_total e _ t _ (Nat.le_refl _)) (runF_not_panic _ _)
+  | cmp =>
+    refine lift _ _ ?_ (runF_not_panic _ _)
+    intro h
+    rw [runF_bind, bindP_fuel] at h
+    rcases h with h | ⟨_, _, _, h⟩
+    · exact ACmp.readVal_total _ t {} _ (Or.inl rfl) (Nat.le_refl _) h
+    · cases h
+
+/-- ASYNC ERRS WHENEVER SYNC ERRS: if the in-memory decoder reports an error on `bs`, the async decoder
+reports an error for every schedule of `bs` — it neither accepts, nor panics, nor runs out of budget —
+although only the in-memory reader rejects a container count above the remaining bytes at the header
+(f7447f5) while the async reader fails at end of stream. -/
+theorem async_err_if_sync_err (p : AProto) (t : TType) (bs : Bytes) (hb : bs.length < 2 ^ 63) (k : ErrKind)
+    (h : syncRead p t bs = .err k) (s : Stream) (hs : flat s = bs) : ∃ k', asyncRead p t s = .err k' := by
+  obtain ⟨hnf, hnp⟩ := async_total p t s
+  cases hx : asyncRead p t s with
+  | ok q =>
+    obtain ⟨v, n⟩ := q
+    obtain ⟨rest, h1, _⟩ := sync_ok_if_async_ok p t s (by rw [hs]; exact hb) v n hx
+    rw [hs, h] at h1; cases h1
+  | err k' => exact ⟨k', rfl⟩
+  | panic m => simp [hx, Out.isPanic] at hnp
+  | fuel => exact absurd hx hnf
 
 /-- THE ASYNC SKIPPER (thrift/mod.rs, uuid arm included): on any input the in-memory reading interpreter
 accepts (value `v`, rest `rest`) and for any depth budget ≥ the value's nesting, skipping from any
